@@ -45,5 +45,6 @@ def dependency_units(pid):
         'C15': [shape, life, buf, connect, wpkt],
         'C16': [shape, wpkt, wlock],
         'C18': [hsh, frame, gendef, vsend],
+        'C17': [frame, gendef, vsend],
     }
     return [_mk(pid, name, f) for name, f in table.get(pid, [])]
